@@ -72,15 +72,16 @@ func c51Succ(sym byte) chord.VNode {
 }
 
 // record state per physical node: 'p' published (by the real publishDestinations),
-// 'm' missing, 'u' undecodable value, 'e' Get error
+// 'm' missing (nil value), 'z' missing (empty non-nil value, nil error), 'u' undecodable value, 'e' Get error
 type c51Case struct {
 	Succ    string `json:"succ"`
 	Records string `json:"records"` // 4 chars, state of P0..P3
 }
 
 type c51World struct {
-	f       *fixture
-	helpers []*fixture
+	f         *fixture
+	helpers   []*fixture
+	emptyKeys map[string]bool
 }
 
 func (w *c51World) close() {
@@ -95,7 +96,7 @@ func c51NewWorld(records string) *c51World {
 	self := c51ChordID(0, 5)
 	kv := newRecKV(self)
 	kv.mem = memory.WithHashFn(chord.Hash)
-	w := &c51World{f: newFixture(ctx, kv, self, c51TunID(0))}
+	w := &c51World{f: newFixture(ctx, kv, self, c51TunID(0)), emptyKeys: map[string]bool{}}
 	errKeys := map[string]bool{}
 	for p := 0; p < 4; p++ {
 		// every physical node is a real Server sharing the DHT; it publishes its own record
@@ -120,6 +121,11 @@ func c51NewWorld(records string) *c51World {
 			kv.mem.Put(ctx, []byte(key), []byte{0x0a, 0x64, 0x01})
 		case 'e':
 			errKeys[key] = true
+		case 'z':
+			// the key is missing and the store says so with an empty NON-nil value and no error
+			w.emptyKeys[key] = true
+			b, _ := (&protocol.TunnelDestination{Chord: c51ChordID(p, 1), Tunnel: c51TunID(p)}).MarshalVT()
+			kv.mem.Put(ctx, []byte(tun.DestinationByTunnelKey(c51TunID(p))), b) // decoy under the tunnel key
 		}
 	}
 	return w.finish(records, errKeys)
@@ -129,6 +135,9 @@ func (w *c51World) finish(records string, errKeys map[string]bool) *c51World {
 	w.f.kv.getHook = func(key string) ([]byte, error, bool) {
 		if errKeys[key] {
 			return nil, fmt.Errorf("kv: injected failure"), true
+		}
+		if w.emptyKeys[key] {
+			return []byte{}, nil, true
 		}
 		return nil, nil, false
 	}
@@ -177,6 +186,11 @@ func c51Eval(w *c51World, ctx context.Context, cs c51Case) (string, map[string]a
 	info["got"] = got
 	if wantFail {
 		return "succeeded-although-a-record-is-missing", info
+	}
+	for _, n := range resp.GetNodes() {
+		if n == nil || n.GetAddress() == "" {
+			return "blank-node-returned", info
+		}
 	}
 	if len(got) > 3 {
 		return "more-than-three", info
@@ -237,9 +251,9 @@ func c51Ctx() context.Context {
 }
 
 func c51(c *report.Check) {
-	maxLen, recAlpha := 4, "pm"
+	maxLen, recAlpha := 4, "pmz"
 	if c.Thorough() {
-		maxLen, recAlpha = 5, "pmue"
+		maxLen, recAlpha = 5, "pmzue"
 	}
 	lists := c51Lists(maxLen)
 	states := c51RecordStates(recAlpha)
